@@ -154,9 +154,8 @@ func (cc *clientCxn) run() {
 			cc.cs.l.Tracef("client %d at %s terminated", cc.cs.id, cc.cxn.RemoteAddr().String())
 			return
 		case csWaitForCommand:
-			if cc.closing {
-				cc.queueStateChange(csTerminate, nil)
-			} else {
+			// when a close was requested, the terminate event is already queued
+			if !cc.IsCloseRequested() {
 				cc.onWaitForCommand()
 			}
 		case csDispatchCommand:
@@ -183,6 +182,12 @@ func (cc *clientCxn) onWaitForCommand() {
 	cmd, length := cc.parseCommand()
 	if length == 0 {
 		cc.mu.Lock()
+		if cc.closing {
+			// close requested since the caller looked: the socket stays open until the
+			// queued terminate event is handled, so do not start a read nobody would end
+			cc.mu.Unlock()
+			return
+		}
 		cc.waiting = true
 		cc.mu.Unlock()
 
